@@ -17,11 +17,14 @@ func (p *prop) Generate(rng *core.Rand, tier string, emit func(string)) {
 		p.corpus = loadCorpus()
 	}
 	nSort, nSite, nMut, nGram, nRaw, nLeak := 24000, 2000, 5000, 2500, 1500, 300
+	nRec, nImp := 4000, 2500
 	switch tier {
 	case "thorough":
 		nSort, nSite, nMut, nGram, nRaw, nLeak = 300000, 25000, 90000, 40000, 20000, 2000
+		nRec, nImp = 80000, 40000
 	case "search":
 		nSort, nSite, nMut, nGram, nRaw, nLeak = 30000, 2000, 5000, 2500, 800, 150
+		nRec, nImp = 6000, 3000
 	}
 	emit("order")
 
@@ -73,6 +76,23 @@ func (p *prop) Generate(rng *core.Rand, tier string, emit func(string)) {
 		} else {
 			emit("eqv " + core.Hex(a) + " " + core.Hex(b))
 		}
+	}
+	// ---- corpus-derived grammar: shapes collected from the shipped files, recombined and repeated
+	rc := rng.Fork()
+	if p.lib == nil {
+		p.lib = buildLib(p.corpus)
+	}
+	for i := 0; i < nRec && len(p.lib.keys) > 0; i++ {
+		t := p.lib.genFile(rc)
+		emit("adapt " + core.Hex(t))
+		if rc.Chance(1, 5) {
+			emit(fmt.Sprintf("perm %s %d", core.Hex(t), rc.U64()%1000000))
+		}
+	}
+	// ---- snippets / imports with argument placeholders
+	ri := rng.Fork()
+	for i := 0; i < nImp; i++ {
+		emit("adapt " + core.Hex(genImportFile(ri)))
 	}
 	// ---- arbitrary byte strings (totality)
 	rr := rng.Fork()
